@@ -241,6 +241,7 @@ class Arith:
         self.ratio_mode = False
         self.real_compare = False
         self._in_lift = False
+        self.nf_events = []
         self.tree_mode = False   # keep values as ite-trees with constant leaves (regime 2)
 
     # ---- helpers -------------------------------------------------
@@ -282,7 +283,7 @@ class Arith:
         return fr(x)
 
     # ---- constant trees (ite over rational leaves) ----------------
-    def const_tree(self, v, depth=4):
+    def const_tree(self, v, depth=8):
         """Return nested (cond, t, f) / leaf structure if v is an ite-tree with constant leaves."""
         if not is_sym(v):
             return ("leaf", v)
@@ -315,12 +316,15 @@ class Arith:
         return self.ite(c, self._map_tree(t, fn), self._map_tree(f, fn))
 
     def _lift(self, fn, *args):
-        """tree_mode: apply fn leaf-wise when every symbolic argument is an ite-tree with constant leaves."""
+        """tree_mode: apply fn leaf-wise when every symbolic argument is an ite-tree with constant leaves.
+
+        Trees are combined like ordered decision diagrams (Shannon expansion on the condition with the smallest AST id), so the
+        result never repeats a condition along a path and its depth is bounded by the number of distinct conditions."""
         trees = []
         anysym = False
         for a in args:
             if is_sym(a):
-                t = self.const_tree(a, depth=6)
+                t = self.const_tree(a, depth=12)
                 if t is None:
                     return NotImplemented
                 anysym = anysym or t[0] != "leaf"
@@ -330,11 +334,23 @@ class Arith:
         if not anysym:
             return fn(*[t[1] for t in trees])
 
-        def rec(i, acc):
-            if i == len(trees):
-                return fn(*acc)
-            return self._map_tree(trees[i], lambda k: rec(i + 1, acc + [k]))
-        return rec(0, [])
+        def cof(t, c, val):
+            if t[0] == "leaf":
+                return t
+            _, tc, hi, lo = t
+            if tc.eq(c):
+                return hi if val else lo
+            return ("ite", tc, cof(hi, c, val), cof(lo, c, val))
+
+        def apply(ts):
+            conds = [t[1] for t in ts if t[0] != "leaf"]
+            if not conds:
+                return fn(*[t[1] for t in ts])
+            c = min(conds, key=lambda x: x.get_id())
+            hi = apply([cof(t, c, True) for t in ts])
+            lo = apply([cof(t, c, False) for t in ts])
+            return self.ite(c, hi, lo)
+        return apply(trees)
 
     # ---- ite -----------------------------------------------------
     def ite(self, c, a, b):
@@ -381,6 +397,10 @@ class Arith:
                 return simp_bool(z3.simplify(z3.If(c, ta, tb)))
             return z3.If(c, ta, tb)
         if is_nonfinite(a) or is_nonfinite(b):
+            if self.tree_mode and not (is_nonfinite(a) and is_nonfinite(b)):
+                # regime 2: a non-finite leaf is an error path; remember its condition (the harness turns it into an obligation)
+                self.nf_events.append(c if is_nonfinite(a) else z_not(c))
+                return b if is_nonfinite(a) else a
             raise Unsupported("ite between a non-finite and another value")
         if (is_sym(a) or is_conc_num(a) or isinstance(a, bool)) and (
             is_sym(b) or is_conc_num(b) or isinstance(b, bool)
@@ -581,7 +601,9 @@ class Arith:
                 return self._c(Fraction(a) / Fraction(b))
             return to_z3(Fraction(1) / Fraction(b)) * to_real(a)
         tb = self.const_tree(b)
-        if tb is not None and not self._tree_has_zero(tb):
+        if tb is None and self.tree_mode and is_sym(b):
+            tb = self.const_tree(b, depth=12)
+        if tb is not None and (self.tree_mode or not self._tree_has_zero(tb)):
             return self._map_tree(tb, lambda k: self.div(a, k))
         if not is_sym(a) and a == 0:
             return 0
